@@ -19,7 +19,9 @@ RULE = ("all tree shapes with n<=N tokens (discontinuous ones included), randoml
         "above tokens; for a quarter of the trees also a unary node directly below the root) and shuffled child lists, "
         "plus seeded random trees up to 8 tokens; punctuation / trace tokens "
         "on every subset of positions (n<=4) or a seeded subset; every token for delete_terminal; a fixed family of "
-        "terminal files per tree (valid at every position, n+1, n+2, 100, 0, negative, mixed, other sentence id, "
+        "terminal files per tree (valid at every position, n+1, n+2, 100, 0, negative, mixed, 2-3 requests per "
+        "sentence where a later one lies beyond the original length + 1 but inside / outside the grown sentence, "
+        "other sentence id, "
         "duplicate index, 3-field lines) x quiet; all operators x values 0..n+1 for filter_by_length.  Non-trivial = "
         "distinct (function, tree, parameters) for which at least one token is targeted")
 
@@ -29,7 +31,7 @@ def BOUNDS(ctx):
             "punct_masks": "all subsets for n<=4, else 6 seeded",
             "random_trees": 120 if ctx.quick else 1500, "random_max_n": 8,
             "trace_param_sets": len(TRACE_PARAMS),
-            "terminal_file_variants": "about 16 per tree x quiet on/off"}
+            "terminal_file_variants": "about 25 per tree x quiet on/off"}
 
 
 SITES = {
@@ -479,6 +481,18 @@ def _terminal_files(n, sid):
     fam.append([[sid, 0, "A", "XA"], [sid, 1, "B", "XB"], [sid, 100, "C", "XC"]])
     fam.append([[sid, n + 1, "B", "XB"], [sid, 1, "A", "XA"]])
     fam.append([[sid, 2, "B", "XB"], [sid, 1, "A", "XA"], [sid, n + 5, "C", "XC"]])
+    # several requests for one sentence: they are handled in ascending order, each one relative to the
+    # sentence as grown so far (lm.ref_insert) -- a later request may lie beyond the ORIGINAL length + 1
+    # and still inside the grown sentence; beyond the grown length + 1 it is outside and ignored
+    fam.append([[sid, n + 1, "A", "XA"], [sid, n + 2, "B", "XB"]])                              # append two
+    fam.append([[sid, n + 2, "B", "XB"], [sid, n + 1, "A", "XA"]])                              # same, file order reversed
+    fam.append([[sid, n + 1, "A", "XA"], [sid, n + 2, "B", "XB"], [sid, n + 3, "C", "XC"]])     # append three
+    fam.append([[sid, 1, "A", "XA"], [sid, 2, "B", "XB"], [sid, n + 3, "C", "XC"]])             # grow, then append
+    fam.append([[sid, n + 2, "C", "XC"], [sid, 1, "A", "XA"]])                                  # prepend, then append
+    fam.append([[sid, max(1, n), "A", "XA"], [sid, n + 2, "B", "XB"], [other, n + 3, "D", "XD"]])
+    fam.append([[sid, n + 1, "A", "XA"], [sid, n + 3, "C", "XC"]])      # n+3 is outside the grown sentence (n+1 tokens)
+    fam.append([[sid, 1, "A", "XA"], [sid, n + 3, "C", "XC"], [sid, n + 4, "D", "XD"]])         # both outside
+    fam.append([[sid, 0, "A", "XA"], [sid, n + 2, "B", "XB"]])          # nothing grows: n+2 stays outside
     fam.append([[other, 1, "A", "XA"]])
     fam.append([[other, 1, "A", "XA"], [sid, 1, "B", "XB"], [other, 2, "C", "XC"]])
     fam.append([[sid, 1, "A", "XA"], [other, 1, "B", "XB"]])               # same index, different sentences: fine
